@@ -273,11 +273,13 @@ pub fn arb_case() -> SBoxedStrategy<ResCase> {
     let tz = prop_oneof![
         1 => Just(String::new()),
         1 => Just("localtime".to_string()),
-        6 => (pad.clone(), prop_oneof![3 => Just(""), 1 => Just(":"), 1 => Just("/"), 1 => Just(":/"), 1 => Just("/abs/")], name.clone(), pad.clone()).prop_map(|(a, pre, n, b)| format!("{a}{pre}{n}{b}")),
+        6 => (pad.clone(), prop_oneof![6 => Just(""), 2 => Just(":"), 2 => Just("/"), 2 => Just(":/"), 2 => Just("/abs/"), 1 => Just("::"), 1 => Just(":::"), 1 => Just("::/")], name.clone(), pad.clone()).prop_map(|(a, pre, n, b)| format!("{a}{pre}{n}{b}")),
         1 => (pad.clone(), pad.clone()).prop_map(|(a, b)| format!("{a}{b}")),
         1 => (name.clone(), pad).prop_map(|(n, p)| format!("{p}:{n}")),
     ];
-    let dirs = proptest::collection::vec(proptest::sample::select(vec!["/usr/share/zoneinfo", "/share/zoneinfo", "/etc/zoneinfo", "/d1", "/d2", "", "rel", "/", "/d1/", "//", "/usr/share/zoneinfo/"]), 0..4).prop_map(|v| v.into_iter().map(|s| s.to_string()).collect::<Vec<String>>());
+    let dirs_any = proptest::collection::vec(proptest::sample::select(vec!["/usr/share/zoneinfo", "/share/zoneinfo", "/etc/zoneinfo", "/d1", "/d2", "", "rel", "/", "/d1/", "//", "/usr/share/zoneinfo/"]), 0..4).prop_map(|v| v.into_iter().map(|s| s.to_string()).collect::<Vec<String>>());
+    // one list in eight is exactly the crate's default directory list
+    let dirs = prop_oneof![7 => dirs_any, 1 => Just(TimeZoneSettings::DEFAULT_DIRECTORIES.iter().map(|s| s.to_string()).collect::<Vec<String>>())];
     let content = prop_oneof![4 => (1i32..1000).prop_map(|k| Content::Zone(k * 60)), 2 => Just(Content::Garbage), 1 => Just(Content::Empty), 2 => Just(Content::Denied)];
     (tz, dirs, proptest::collection::vec((any::<u32>(), content, 0u8..6), 0..6))
         .prop_map(|(tz, dirs, files)| {
@@ -299,6 +301,8 @@ pub fn arb_case() -> SBoxedStrategy<ResCase> {
                 cands.push(n);
             }
             cands.push("/unrelated/file".into());
+            // where a resolver honouring a TZDIR-like override would look (the probes of C19 run with TZDIR=/tzdir-probe)
+            cands.push(format!("/tzdir-probe/{}", stripped.trim_start_matches('/')));
             let mut vfs = BTreeMap::new();
             for (sel, content, _) in files {
                 let p = cands[idx(sel, cands.len())].clone();
